@@ -436,7 +436,11 @@ func (E *Engine) render(assumes []string, goal string, values []inputTerm) strin
 	for len(work) > 0 {
 		work = work[:0]
 		progress := false
-		for i, ax := range E.axioms {
+		allAx := E.axioms
+		if E.cur != nil {
+			allAx = append(append([]axiom{}, E.axioms...), E.cur.heapFacts...)
+		}
+		for i, ax := range allAx {
 			if usedAx[i] {
 				continue
 			}
@@ -471,17 +475,7 @@ func (E *Engine) render(assumes []string, goal string, values []inputTerm) strin
 	}
 	f.Prelude = axs
 	f.Assumes = append(append([]string{}, E.globalFacts...), assumes...)
-	if E.cur != nil {
-		for _, hf := range E.cur.heapFacts {
-			if seen[hf.Trigger[0]] {
-				f.Assumes = append(f.Assumes, hf.Body)
-				if !seen[fAlloc0] {
-					seen[fAlloc0] = true
-					f.Decls = append(f.Decls, Decl{fAlloc0, E.decls[fAlloc0]})
-				}
-			}
-		}
-	}
+
 	f.Goal = goal
 	for _, v := range values {
 		ok := true
